@@ -299,6 +299,11 @@ impl<'p, W, R, T> CompilationScope<'p, W, R, T> {
         spec: XFuncSpec,
         func: XStaticFunction<W, R, T>,
     ) -> Result<XExpr<W, R, T>, CompilationError> {
+        if let XStaticFunction::UserFunction(ud) = &func {
+            // a lambda is a value from the moment it is created: what its body needs must already be implemented
+            let requirements: Vec<_> = ud.forward_requirements.iter().cloned().collect();
+            self.require_forwards(requirements)?;
+        }
         let cell_idx = self.cells.ipush(Cell::Variable {
             t: spec.xtype(),
             forward_requirements: Default::default(),
@@ -776,10 +781,11 @@ impl<'p, W, R, T> CompilationScope<'p, W, R, T> {
                     }
                     None => return Err(CompilationError::ValueNotFound { name }),
                 };
+                // taking a function as a value counts as a use of the forward references it depends on
+                self.require_forwards(forward_requirements)?;
                 let new_cell_idx = if height == self.height {
                     cell_idx
                 } else {
-                    self.require_forwards(forward_requirements)?;
                     let new_cell = Cell::Capture {
                         ancestor_depth: self.height - height,
                         cell_idx,
